@@ -8,6 +8,7 @@ import (
 	"net"
 	"os"
 	"path/filepath"
+	"strings"
 	"sync"
 	"testing"
 	"time"
@@ -26,9 +27,44 @@ func TestMain(m *testing.M) { hx.Main(m, "C06") }
 // executor interleaves the connections round-robin.
 type Case struct {
 	Target string     `json:"target"` // "script" or "ufs"
-	Gen    string     `json:"gen"`    // "struct", "mutate", "raw"
+	Gen    string     `json:"gen"`    // "struct", "mutate", "raw", "churn", "flood"
 	Conns  [][][]byte `json:"conns"`
 	Desc   []string   `json:"desc,omitempty"` // human-readable outline of the structured steps
+	// Loops > 1: on connection i the chunks from index LoopFrom[i] on are
+	// written Loops times over (a burst whose effect depends on the schedule
+	// inside the server is tried again and again).
+	Loops    int   `json:"loops,omitempty"`
+	LoopFrom []int `json:"loop_from,omitempty"`
+	// Mute[i] >= 0: from chunk index Mute[i] on (indices after the loop was
+	// unrolled) connection i never reads a reply again.
+	Mute []int `json:"mute,omitempty"`
+	// Hold: the bystander and a fresh connection are probed while the
+	// hostile connections are still open (and once more after they closed).
+	Hold bool `json:"hold,omitempty"`
+}
+
+// unrolled returns the chunks connection i writes, loop unrolled.
+func (c *Case) unrolled(i int) [][]byte {
+	chunks := c.Conns[i]
+	if c.Loops <= 1 || i >= len(c.LoopFrom) {
+		return chunks
+	}
+	from := c.LoopFrom[i]
+	if from < 0 || from >= len(chunks) {
+		return chunks
+	}
+	out := append([][]byte{}, chunks[:from]...)
+	for k := 0; k < c.Loops; k++ {
+		out = append(out, chunks[from:]...)
+	}
+	return out
+}
+
+func (c *Case) muteAt(i int) int {
+	if i < len(c.Mute) && c.Mute[i] >= 0 {
+		return c.Mute[i]
+	}
+	return int(^uint(0) >> 1)
 }
 
 type targetEnv struct {
@@ -184,27 +220,62 @@ func run(c *Case) error {
 			_ = cn.SetReadDeadline(time.Now().Add(300 * time.Microsecond))
 		}
 	}
+	plans := make([][][]byte, len(c.Conns))
 	maxlen := 0
-	for _, ch := range c.Conns {
-		if len(ch) > maxlen {
-			maxlen = len(ch)
+	for i := range c.Conns {
+		plans[i] = c.unrolled(i)
+		if len(plans[i]) > maxlen {
+			maxlen = len(plans[i])
 		}
 	}
 	for k := 0; k < maxlen; k++ {
-		for i, chunks := range c.Conns {
+		for i, chunks := range plans {
 			if k >= len(chunks) {
 				continue
 			}
 			_ = conns[i].SetWriteDeadline(time.Now().Add(2 * time.Second))
 			_, _ = conns[i].Write(chunks[k])
-			drain(conns[i], 2*time.Millisecond)
+			if k < c.muteAt(i) {
+				drain(conns[i], 2*time.Millisecond)
+			}
 		}
 	}
-	for _, cn := range conns {
-		drain(cn, 3*time.Millisecond)
+	if c.Hold {
+		// the hostile connections stay open (the muted ones with their replies
+		// unread): everybody else has to be served meanwhile. Two rounds, so
+		// that the second one meets the server after it worked through what
+		// was thrown at it.
+		for round := 0; round < 2; round++ {
+			if err := e.probe("while the hostile connections are still open"); err != nil {
+				return err
+			}
+			if round == 0 {
+				time.Sleep(20 * time.Millisecond)
+			}
+		}
+	}
+	for i, cn := range conns {
+		if len(plans[i]) <= c.muteAt(i) {
+			drain(cn, 3*time.Millisecond)
+		}
 		_ = cn.Close()
 	}
 	// ---- oracle
+	if err := e.probe("after the case"); err != nil {
+		return err
+	}
+	// the process may die a moment later (a goroutine still running the last request)
+	time.Sleep(200 * time.Microsecond)
+	if !e.ch.Alive() {
+		return e.death("the server process died")
+	}
+	return nil
+}
+
+// probe is the oracle: the child is alive, the bystander connection opened
+// before the case gets an answer, and a fresh connection gets an Rversion.
+// nil also when the round was inconclusive (recorded as such).
+func (e *targetEnv) probe(when string) error {
 	if !e.ch.Alive() {
 		return e.death("the server process died")
 	}
@@ -216,15 +287,12 @@ func run(c *Case) error {
 		if !e.ch.Alive() {
 			return e.death("the server process died")
 		}
-		txt := e.ch.Dump()
-		_ = e.ch.Restart()
-		e.bystander = nil
-		return &deathErr{fmt.Sprintf("a bystander connection opened before the case is no longer served (Tstat: %v %+v); server goroutines:\n%s", err, r, clip(txt, 5000))}
+		return e.unserved(err, fmt.Sprintf("a bystander connection opened before the case is no longer served %s (Tstat: %v %+v)", when, err, r))
 	}
 	// later connections are served
 	cn, err := e.ch.Dial()
 	if err != nil {
-		return e.death("a new connection cannot be opened after the case: " + err.Error())
+		return e.death("a new connection cannot be opened " + when + ": " + err.Error())
 	}
 	p := rawc.New(cn)
 	p.Timeout = patience
@@ -234,17 +302,56 @@ func run(c *Case) error {
 		if !e.ch.Alive() {
 			return e.death("the server process died")
 		}
-		txt := e.ch.Dump()
-		_ = e.ch.Restart()
-		e.bystander = nil
-		return &deathErr{fmt.Sprintf("a connection opened after the case is not served (Tversion: %v); server goroutines:\n%s", err, clip(txt, 5000))}
-	}
-	// the process may die a moment later (a goroutine still running the last request)
-	time.Sleep(200 * time.Microsecond)
-	if !e.ch.Alive() {
-		return e.death("the server process died")
+		return e.unserved(err, fmt.Sprintf("a connection opened %s is not served (Tversion: %v)", when, err))
 	}
 	return nil
+}
+
+// unserved reads the goroutine dump of a live server that did not answer. A
+// wait that ran out although no goroutine of the server is doing anything
+// inside go9p (every connection parked in its Read, every sender idle) was a
+// stall of the machine or of this process, not of the server: inconclusive.
+func (e *targetEnv) unserved(cause error, what string) error {
+	txt := e.ch.Dump()
+	_ = e.ch.Restart()
+	e.bystander = nil
+	if cause == rawc.ErrTimeout && serverIdle(txt) {
+		hx.Inconclusive(what + ", but the server was idle:\n" + clip(txt, 3000))
+		return nil
+	}
+	return &deathErr{what + "; server goroutines:\n" + clip(txt, 5000)}
+}
+
+// serverIdle: no goroutine of the dump is inside go9p except connections
+// waiting for bytes (recv in a Read), idle senders (send in its select) and
+// the logger.
+func serverIdle(dump string) bool {
+	seen := false
+	for _, blk := range strings.Split(dump, "\n\n") {
+		head, rest, _ := strings.Cut(blk, "\n")
+		if !strings.HasPrefix(head, "goroutine ") {
+			continue
+		}
+		seen = true
+		if !strings.Contains(rest, "github.com/rminnich/go9p.") {
+			continue
+		}
+		inner := ""
+		for _, l := range strings.Split(rest, "\n") {
+			if strings.HasPrefix(l, "github.com/rminnich/go9p.") {
+				inner = l
+				break
+			}
+		}
+		switch {
+		case strings.Contains(inner, "(*Logger).doLog"):
+		case strings.Contains(inner, "(*Conn).recv") && strings.Contains(rest, ").Read("):
+		case strings.Contains(inner, "(*Conn).send") && strings.Contains(head, "[select"):
+		default:
+			return false
+		}
+	}
+	return seen
 }
 
 func (e *targetEnv) death(what string) error {
@@ -600,7 +707,7 @@ func nontrivial(c *Case) bool {
 			}
 		}
 	}
-	return c.Gen == "struct"
+	return c.Gen == "struct" || c.Gen == "churn" || c.Gen == "flood"
 }
 
 func execute(test string, c *Case) error {
@@ -609,7 +716,7 @@ func execute(test string, c *Case) error {
 	hx.Label(fmt.Sprintf("target=%s gen=%s conns=%d", c.Target, c.Gen, len(c.Conns)))
 	if nontrivial(c) {
 		b, _ := json.Marshal(c.Conns)
-		hx.NonTrivial(c.Target, b)
+		hx.NonTrivial(c.Target, b, c.Loops, c.Hold)
 	}
 	s := *c
 	if len(s.Desc) > 60 {
@@ -648,6 +755,10 @@ func replayEnv(t *testing.T, e *hx.Envelope, times int) {
 	var c Case
 	if err := json.Unmarshal(e.Case, &c); err != nil {
 		t.Fatalf("bad case: %v", err)
+	}
+	if c.Gen == "churn" && times > 1 {
+		// what a burst meets inside the server depends on the schedule
+		times = 60
 	}
 	for i := 0; i < times; i++ {
 		if err := execute(e.Test, &c); err != nil {
